@@ -92,5 +92,5 @@ func localize(r *hx.Rand, flowDefs []any) {
 
 // tricky message texts for resumes (operands of routers: saved as `input` of results and of run_result_changed)
 var stressInputs = []string{
-	strings.Repeat("long input ", 80), "two\nlines", "tab\tseparated", "nul\u0000byte", "  padded  ", "☺ ünïcödé ☺", "a \"b\" \\c", " sep", "1e400", strings.Repeat("9", 50),
+	strings.Repeat("long input ", 80), "\u212aé rest", "\u212a\u212a", "ǅé", "İstanbul é", "ſtraße", "two\nlines", "tab\tseparated", "nul\u0000byte", "  padded  ", "☺ ünïcödé ☺", "a \"b\" \\c", " sep", "1e400", strings.Repeat("9", 50),
 }
